@@ -355,9 +355,128 @@ int main(int argc, char** argv) {
     f4b.chunk = 16;
     f4b.rule = "as OK with keys of total length T in 250..262, every T in 440..560, and +-8 around 1024, 2048, 4096, 16384, 65536; the escape after 0, 1, 31, T/2, T-33, T-1, T plain bytes";
     fams.push_back(f4b);
+    // OX: the logarithmic tail of the three size-like quantities of a lookup: WIDTH of a container that is indexed or
+    // skipped, DEPTH of a value that is skipped or descended into, LENGTH of a string that is skipped or returned
+    struct OxCase {
+      int kind;  // 0 wide array of numbers, 1 wide array of small objects, 2 wide object, 3 deep arrays, 4 deep objects, 5 long string
+      uint32_t a, b;
+    };
+    static std::vector<OxCase> OX;
+    if (OX.empty()) {
+      for (uint32_t k = 4; k <= (quick ? 14u : 16u); k++)
+        for (int d = -1; d <= 1; d++)
+          for (int kind = 0; kind < 3; kind++) OX.push_back({kind, (1u << k) + d, 0});
+      std::vector<uint32_t> ds;
+      for (uint32_t d = 0; d <= 70; d++) ds.push_back(d);
+      for (uint32_t b : {128u, 256u, 1024u})
+        for (int d = -1; d <= 1; d++) ds.push_back(b + d);
+      for (uint32_t d : ds)
+        for (int kind = 3; kind < 5; kind++) OX.push_back({kind, d, 0});
+      std::vector<uint32_t> Ts;
+      for (uint32_t t = 250; t <= 262; t++) Ts.push_back(t);
+      for (uint32_t t = 440; t <= 560; t += 3) Ts.push_back(t);
+      for (uint32_t b : {1024u, 4096u, 65536u})
+        for (int d = -1; d <= 1; d++) Ts.push_back(b + d);
+      for (uint32_t T : Ts)
+        for (uint32_t pp : {0u, 1u, 31u, T / 2, T - 33, T - 1}) OX.push_back({5, T, pp});
+    }
+    vr::Family f9;
+    f9.name = "OX_wide_deep_long";
+    f9.count = OX.size();
+    f9.group = "OX";
+    f9.chunk = 4;
+    f9.rule = "width: arrays of n numbers / n small objects and objects of n members, n = 2^k-1, 2^k, 2^k+1 for k = 4..14 (thorough 16), as the root and as a member that has to be skipped, looked up at indices 0, 1, n/2, n-2, n-1, n, n+1 / keys k0, k(n/2), k(n-1), kn; depth: d nested arrays / objects for every d in 0..70 and 127..129, 255..257, 1023..1025, skipped and descended into completely; length: strings of T bytes (250..262, 440..560 step 3, +-1 around 1024, 4096, 65536) holding an escaped quote after 0, 1, 31, T/2, T-33, T-1 bytes, skipped and returned";
+    fams.push_back(f9);
     static const char* kEsc[5] = {"\\u0041", "\\/", "\\n", "\\\"", "\\\\"};
     static const char* kDec[5] = {"A", "/", "\n", "\"", "\\"};
     check = [&, NN, NP](const vr::Family& f, uint64_t idx, vr::Ctx& ctx) {
+      if (f.name[1] == 'X') {
+        const OxCase& c = OX[idx];
+        auto key = [](const std::string& k) {
+          ref::Step st;
+          st.key = k;
+          return st;
+        };
+        auto num = [](int i) {
+          ref::Step st;
+          st.is_num = true;
+          st.num = i;
+          return st;
+        };
+        std::string inner;
+        std::vector<std::vector<ref::Step>> ip;  // paths inside the value under test
+        if (c.kind <= 2) {
+          const uint32_t n = c.a;
+          inner.reserve((size_t)n * 14 + 2);
+          inner = c.kind == 2 ? "{" : "[";
+          for (uint32_t i = 0; i < n; i++) {
+            if (i) inner += ",";
+            if (c.kind == 0)
+              inner += std::to_string(i);
+            else if (c.kind == 1)
+              inner += "{\"k\":" + std::to_string(i) + "}";
+            else
+              inner += "\"k" + std::to_string(i) + "\":" + std::to_string(i);
+          }
+          inner += c.kind == 2 ? "}" : "]";
+          if (c.kind == 2) {
+            for (uint32_t i : {0u, n / 2, n - 1, n}) ip.push_back({key("k" + std::to_string(i))});
+          } else {
+            for (int i : {0, 1, (int)(n / 2), (int)n - 2, (int)n - 1, (int)n, (int)n + 1})
+              if (i >= 0) ip.push_back(c.kind == 1 ? std::vector<ref::Step>{num(i), key("k")} : std::vector<ref::Step>{num(i)});
+          }
+        } else if (c.kind <= 4) {
+          const uint32_t d = c.a;
+          std::vector<ref::Step> down;
+          for (uint32_t i = 0; i < d; i++) {
+            inner += c.kind == 3 ? "[" : "{\"a\":";
+            down.push_back(c.kind == 3 ? num(0) : key("a"));
+          }
+          inner += "5";
+          for (uint32_t i = 0; i < d; i++) inner += c.kind == 3 ? "]" : "}";
+          ip.push_back(down);
+          if (d) {
+            std::vector<ref::Step> part(down.begin(), down.begin() + d / 2);
+            ip.push_back(part);
+            std::vector<ref::Step> over = down;
+            over.push_back(c.kind == 3 ? num(0) : key("a"));
+            ip.push_back(over);
+            std::vector<ref::Step> miss = down;
+            miss.back() = c.kind == 3 ? num(1) : key("b");
+            ip.push_back(miss);
+          }
+        } else {
+          const uint32_t T = c.a, pp = c.b;
+          inner = "\"" + std::string(pp, 'x') + "\\\"" + std::string(T - pp, 'y') + "\"";
+          ip.push_back({});
+        }
+        // three surroundings: the value alone; as first element followed by 7; as first member followed by "b":7
+        for (int sur = 0; sur < 3; sur++) {
+          std::string text = sur == 0 ? inner : sur == 1 ? "[" + inner + ",7]" : "{\"a\":" + inner + ",\"b\":7}";
+          ref::Result r = ref::parse(text);
+          if (!r.ok) {
+            ctx.violation("generator_invalid", "generator_invalid", text.substr(0, 200), "harness error: generated text is not valid");
+            return;
+          }
+          if (ctx.want_sample) ctx.sample("kind " + std::to_string(c.kind) + " a=" + std::to_string(c.a) + " b=" + std::to_string(c.b));
+          std::vector<std::vector<ref::Step>> ps;
+          for (auto& q : ip) {
+            std::vector<ref::Step> full;
+            if (sur == 1) full.push_back(num(0));
+            if (sur == 2) full.push_back(key("a"));
+            full.insert(full.end(), q.begin(), q.end());
+            ps.push_back(full);
+          }
+          if (sur == 1) ps.push_back({num(1)});
+          if (sur == 2) ps.push_back({key("b")});
+          std::vector<JsonPointer> pj;
+          for (auto& x : ps) pj.push_back(sc::to_pointer(x));
+          static const std::vector<ref::Step> nopre;
+          static const JsonPointer nojp;
+          c10_text(text, r.v, ps, pj, nopre, nojp, ctx);
+        }
+        return;
+      }
       if (f.name[1] == 'L') {
         unsigned wrap = (unsigned)(idx % 4);
         idx /= 4;
